@@ -476,6 +476,20 @@ def _exec_grid_stmt(st, f, env, grid):
         raise _NotUnderstood(norm(st))
     if isinstance(st, ast.If):
         t = st.test
+        neg = False
+        while isinstance(t, ast.UnaryOp) and isinstance(t.op, ast.Not):
+            t, neg = t.operand, not neg
+        # `if self.w[a:b]:` / `if not self.w[a:b]:` -- is that part of the grid empty?
+        if isinstance(t, ast.Subscript) and isinstance(t.slice, ast.Slice) and _is_grid(t.value) and t.slice.step is None:
+            lo = _int_expr(t.slice.lower, f, env) if t.slice.lower is not None else 0
+            hi = _int_expr(t.slice.upper, f, env) if t.slice.upper is not None else len(grid)
+            if lo is not None and hi is not None:
+                val = bool(grid[slice(lo, hi)]) != neg
+                for s2 in (st.body if val else st.orelse):
+                    _exec_grid_stmt(s2, f, env, grid)
+                return
+        if neg:
+            raise _NotUnderstood(norm(st.test))
         if isinstance(t, ast.Compare) and len(t.ops) == 1:
             a_, b_ = _int_expr(t.left, f, env), _int_expr(t.comparators[0], f, env)
             if a_ is not None and b_ is not None:
